@@ -57,6 +57,12 @@ class _float(float):
     def __hash__(self):
         return super().__hash__() + 1
 
+    # The shifted hash can still coincide with the hash of the equal int (CPython
+    # never returns -1 as a hash, so -1.0 and -2.0 ended up in the slots of -1 and
+    # -2). Keys of this type therefore only ever compare equal to each other.
+    def __eq__(self, other):
+        return type(other) is _float and float(self) == float(other)
+
 
 class _TypedSetDefaultDict(dict):
     """Dictionary that is guaranteed to store differently typed values separately.
